@@ -44,33 +44,42 @@ let hash_pred seed num den (a : int list) : bool =
   h := (!h * 1103515245 + 12345) land 0x7fffffff;
   ((!h lsr 12) mod den) < num
 
-(* the strongly pruning families of harness/cmd/c15/main.go (prunePred) *)
-let prune_pred (kind : char) (c : int) (a : int list) : bool =
+(* the strongly pruning families of harness/cmd/c15/main.go (prunePred); deviations only at
+   positions lo <= i < hi *)
+let prune_pred (kind : char) (c : int) (lo : int) (hi : int) (a : int list) : bool =
   let arr = Array.of_list a in
   let l = Array.length arr in
   let last = arr.(l - 1) in
+  let inr i = lo <= i && i < hi in
   match kind with
   | 's' ->
     let t = ref 0 and ok = ref true in
-    Array.iter (fun v -> t := !t + v; if !t > c then ok := false) arr; !ok
+    Array.iteri (fun i v -> t := !t + v; if !t > c || (v <> 0 && not (inr i)) then ok := false) arr; !ok
   | 'd' ->
     if last - (l - 1) > 1 || (l - 1) - last > 1 then false
     else begin
-      let t = ref 0 in
-      Array.iteri (fun i v -> if v > i then incr t) arr; !t <= c
+      let t = ref 0 and ok = ref true in
+      Array.iteri (fun i v -> (if v > i then incr t); if v <> i && not (inr i) then ok := false) arr;
+      !ok && !t <= c
     end
   | 'e' ->
     if last < l - 2 then false
     else begin
-      let t = ref 0 and mx = ref (-1) in
-      Array.iter (fun v -> if v < !mx then incr t else mx := v) arr; !t <= c
+      let t = ref 0 and mx = ref (-1) and ok = ref true in
+      Array.iteri (fun i v -> if v < !mx then (incr t; if not (inr i) then ok := false) else mx := v) arr;
+      !ok && !t <= c
     end
   | _ -> failwith "bad predicate kind"
 
 let parse_pred (tok : string) : z list -> bool =
   let rest = String.sub tok 1 (String.length tok - 1) in
   match tok.[0] with
-  | 's' | 'd' | 'e' -> let c = int_of_string rest in let k = tok.[0] in fun a -> prune_pred k c (is_ a)
+  | 's' | 'd' | 'e' ->
+    let k = tok.[0] in
+    (match List.map int_of_string (String.split_on_char ':' rest) with
+     | [c] -> fun a -> prune_pred k c 0 max_int (is_ a)
+     | [c; lo; hi] -> fun a -> prune_pred k c lo hi (is_ a)
+     | _ -> failwith "bad predicate")
   | 'p' -> let i = int_of_string rest in fun a -> fixed_pred i (is_ a)
   | 'h' ->
     (match List.map int_of_string (String.split_on_char ':' rest) with
@@ -86,6 +95,12 @@ let parse_less (tok : string) : z -> z -> bool =
     fun i j ->
       let i = int_of_z i and j = int_of_z j in
       i < j && not (j = i + 1 && List.mem i free)
+  end else if tok.[0] = 'c' then begin
+    (* the chain given by its covers only, without the listed links *)
+    let broken = if rest = "" then [] else List.map int_of_string (String.split_on_char '.' rest) in
+    fun i j ->
+      let i = int_of_z i and j = int_of_z j in
+      j = i + 1 && not (List.mem i broken)
   end else
   let mask = int_of_string rest in
   fun i j ->
@@ -97,6 +112,27 @@ exception Model_panic
 
 (* the window of the case being run: 0 = drain completely *)
 let window = ref 0
+
+(* the API call pattern of the case being run ("" = Value after every Next); see observe in
+   harness/cmd/c15/main.go.  The model has no notion of "calling Value": its object at a step is
+   what Value must return whenever it is called at that step. *)
+let call_pat = ref ""
+
+let observe (pat : string) (i : int) : int =
+  let arg = String.sub pat 1 (String.length pat - 1) in
+  match pat.[0] with
+  | 'k' -> if (i + 1) mod (int_of_string arg) = 0 then 1 else 0
+  | 'r' ->
+    let h = (int_of_string arg) land 0x7fffffff in
+    let h = (h * 1103515245 + 12345 + (i + 1) * 7919) land 0x7fffffff in
+    let h = (h * 1103515245 + 12345) land 0x7fffffff in
+    (h lsr 12) land 1
+  | 'd' -> 2
+  | 'n' -> 0
+  | _ -> failwith "bad call pattern"
+
+let observed (vals : string list) : string list =
+  List.concat (List.mapi (fun i v -> if observe !call_pat i > 0 then [Printf.sprintf "%d=%s" i v] else []) vals)
 
 let drain (next : 's -> ('s * bool) option) (value : 's -> string) (init : 's) : string list * string =
   let s = ref init and vals = ref [] and cnt = ref 0 and go = ref true and win = ref false in
@@ -151,6 +187,11 @@ let rec obs_of_line (line : string) : string =
       let f = List.filter (fun s -> s <> "") (String.split_on_char ' ' line) in
       let f =
         match List.rev f with
+        | w :: rest when String.length w > 1 && w.[0] = '%' ->
+          call_pat := String.sub w 1 (String.length w - 1); List.rev rest
+        | _ -> call_pat := ""; f in
+      let f =
+        match List.rev f with
         | w :: rest when String.length w > 1 && w.[0] = '@' ->
           window := int_of_string (String.sub w 1 (String.length w - 1)); List.rev rest
         | _ -> window := 0; f in
@@ -195,6 +236,11 @@ let rec obs_of_line (line : string) : string =
             false, drain (topo_next less) (lv topo_value) (topo_init (nat_of_int (int_of_string (List.nth args 1))))
           | _ -> failwith ("unknown iterator " ^ name)
         in
+        if !call_pat <> "" then begin
+          let n = List.length vals in
+          if ordered then Printf.sprintf "%d:%s;%s" n (String.concat "/" (observed vals)) tail
+          else Printf.sprintf "%d:;%s ## %s" n tail (String.concat "/" (observed vals))
+        end else
         if ordered then obs_of vals tail
         else if tail = "WIN" then Printf.sprintf "%d+:;WIN ## %s" (List.length vals) (String.concat "/" vals)
         else obs_of (List.sort compare vals) tail ^ " ## " ^ String.concat "/" vals
